@@ -368,8 +368,21 @@ func specC13(r *hlib.Rng, res *hlib.Result) (string, []string) {
 	// Unlimited caches here: what eviction does to answers is the business of the C03 correspondence.
 	src := newImpl(backend, 0, 0)
 	defer src.close()
+	io := r.Chance(1, 3)
 	trace := []string{"new " + backend}
+	if io {
+		// IO roots (policy NoChildRoots): the only transition is empty -> r2 inside one version
+		src.io = true
+		src.tree.Close()
+		src.tree = mkvs.New(nil, src.ndb, node.RootTypeIO)
+		src.last.Type = node.RootTypeIO
+		trace = append(trace, "root-type io")
+		res.Count("spec:c13-io-roots")
+	}
 	a := randomContents(r, g, r.Intn(10))
+	if io {
+		a = contents{}
+	}
 	pool := append([][]byte{}, g.pool...)
 	for i := 0; i < 4; i++ {
 		pool = append(pool, g.fresh())
@@ -381,11 +394,15 @@ func specC13(r *hlib.Rng, res *hlib.Result) (string, []string) {
 	if err := buildHistory(r, src, cur, a, pool, 0, false, &trace); err != nil {
 		return "spec-c13-error: " + err.Error(), trace
 	}
-	wl0, _, err := src.commit()
-	wl0 = sortLog(wl0)
-	trace = append(trace, "commit")
-	if err != nil {
-		return "spec-c13-error: " + err.Error(), trace
+	var wl0 writelog.WriteLog
+	var err error
+	if !io {
+		wl0, _, err = src.commit()
+		wl0 = sortLog(wl0)
+		trace = append(trace, "commit")
+		if err != nil {
+			return "spec-c13-error: " + err.Error(), trace
+		}
 	}
 	r1 := src.last
 	// The batch: arbitrary ops incl. remove-then-reinsert, insert-then-remove, equal overwrites.
@@ -464,14 +481,18 @@ func specC13(r *hlib.Rng, res *hlib.Result) (string, []string) {
 	dst := newImpl(backend, 0, 0)
 	defer dst.close()
 	rc, _ := storageApi.NewRootCache(dst.ndb)
+	empty := emptyRoot()
+	empty.Type = r1.Type
 	if !r1.Hash.IsEmpty() {
-		if _, err := rc.Apply(ctx, emptyRoot(), r1, wl0); err != nil {
+		if _, err := rc.Apply(ctx, empty, r1, wl0); err != nil {
 			return "spec-c13-apply-error: initial apply: " + err.Error(), trace
 		}
-		if err := dst.ndb.Finalize([]node.Root{r1}); err != nil {
-			return "spec-c13-apply-error: finalize: " + err.Error(), trace
+		if !io {
+			if err := dst.ndb.Finalize([]node.Root{r1}); err != nil {
+				return "spec-c13-apply-error: finalize: " + err.Error(), trace
+			}
 		}
-	} else if backend == "badgermem" || backend == "pathbadgermem" {
+	} else if !io {
 		// version 0 holds only the empty root; finalize it so that version 1 can follow
 		_ = dst.ndb.Finalize([]node.Root{r1})
 	}
